@@ -153,7 +153,7 @@ def jobs(tier):
     for which in ("wccn", "whitening"):
         out.append(("lineartx-" + which, "job_linear_tx", dict(which=which)))
     for kind in ("isv", "jfa"):
-        for labels in ([0, 0, 1, 1], [1, 0, 1, 0]):
+        for labels in ([0, 0, 1, 1], [1, 0, 1, 0], [1, 1, 0, 1]):
             for comp in ((4,), (2, 2), (1, 3), (1, 1, 1, 1)):
                 out.append(("%s-%s-%s" % (kind, "".join(map(str, labels)), "+".join(map(str, comp))), "job_fa", dict(kind=kind, C=1, chunks=(comp, (1,)), labels=labels)))
     return out
